@@ -232,8 +232,24 @@ def _run_core(world, plan):
         if r != 'stop' or world.stats.get('quiet_stop'):
             world.stats['stop_reason'] = 'quiet' if world.stats.get('quiet_stop') else r
             world.stats['unfinished'] = 1
-    # settle: let in-flight frames land and cleanup run
+    # settle: let in-flight frames land and cleanup run; a slow link (write stalls) may need much
+    # longer than the nominal window to drain what is already queued
     loop.run_sim(until_time=loop.time() + settle)
+
+    def drained():
+        for ep in world.endpoints.values():
+            q = getattr(ep, '_send_queue', None)
+            if q is not None and not q.empty() and getattr(ep, '_sender_task', None) is not None:
+                return False
+        return link.idle()
+
+    deadline = loop.time() + plan.get('drain_window', 900.0)
+    while not drained() and loop.time() < deadline:
+        loop.run_sim(until_time=loop.time() + 1.0)
+    if not drained():
+        world.stats['not_drained'] = 1
+    else:
+        loop.run_sim(until_time=loop.time() + 0.5)
     world.rec('mark', what='settled')
     for name in ('client', 'server'):
         world.observe_final(name)
